@@ -118,6 +118,40 @@ def explore(ctx, depth):
     if got != {'ok': []}:
         ctx.fail({'clause': 'one importer / exporter object for the whole grid'},
                  'with one importer and one exporter object serving many pitches a result is wrong or an earlier pitch object was altered', impl=got, expected=[])
+    # renaming an existing pitch: a rejected name leaves the pitch as it was; an accepted one makes it exactly the pitch of that name
+    # (round 6: C16_r6_1 stored the rejected name before checking it, C16_r6_2 kept a stale copy of the letter)
+    def renamed():
+        bad = []
+        imp, exp_ = P.HumdrumPitchImporter(), P.HumdrumPitchExporter()
+        for l in range(7):
+            for a in (-3, -1, 0, 2):
+                for o in (-1, 0, 3, 4, 8):
+                    s = spell(l, a, o)
+                    p = imp.import_pitch(s)
+                    for rejected in ('C++++', 'C----', 'H', 'c+-+-+', ''):
+                        try:
+                            p.name = rejected
+                            bad.append(['accepted', s, rejected])
+                        except ValueError:
+                            pass
+                        except Exception as e:
+                            bad.append(['raised ' + type(e).__name__, s, rejected])
+                    if (p.name, p.octave) != (agn_name(l, a), o) or exp_.export_pitch(p) != s:
+                        bad.append(['changed by a rejected name', s, [p.name, p.octave], exp_.export_pitch(p)])
+                    l2, a2 = (l + 3) % 7, (a + 4) % 7 - 3
+                    p.name = agn_name(l2, a2)
+                    out = exp_.export_pitch(p)
+                    if out != spell(l2, a2, o) or (p.name, p.octave) != (agn_name(l2, a2), o):
+                        bad.append(['renamed', s, agn_name(l2, a2), out, spell(l2, a2, o)])
+                    q = imp.import_pitch(out)
+                    if (q.name, q.octave) != (p.name, p.octave):
+                        bad.append(['renamed, re-imported', s, out, [q.name, q.octave]])
+        return bad[:5]
+    got = call(renamed)
+    ctx.seen({'clause': 'renaming an existing pitch'}, True)
+    if got != {'ok': []}:
+        ctx.fail({'clause': 'renaming an existing pitch (rejected names leave it unchanged, accepted names are exported and re-imported exactly)'},
+                 'a pitch whose name was reassigned is not exported as the pitch it now is, or a rejected name changed it', impl=got, expected=[])
     # error classes on arbitrary ASCII (tie only)
     rng = ctx.rng
     alphabet = 'abcdefgABCDEFGhzHZ#-+n19 x'
